@@ -129,4 +129,72 @@ theorem pipeline_partial (t : Printer.PrecTable) (sp : Token.Spacing) (orc : Fol
   rw [hT]
   exact e7
 
+/-- T01.11: under `python -O` semantics the *whole* modelled transform pipeline except import combining and annotation
+    removal — nine transforms, now including remove_asserts and remove_debug — refines the observable behaviour. -/
+theorem pipeline_partial_under_O (t : Printer.PrecTable) (sp : Token.Spacing) (orc : Fold.Oracle) (el : List String)
+    (o : Opts) (h1 : o.combineImports = false) (h2 : o.annotations.any = false) (n : Nat) (m : Module)
+    (hcore : (runO n m).ending ≠ "stuck") :
+    runO n (transformM t sp orc el o m) = runO n m := by
+  let m1 := if o.removeLiteralStatements then removeLiteralStatements m else m
+  have e1 : runO n m1 = runO n m := by
+    show runO n (if o.removeLiteralStatements then removeLiteralStatements m else m) = runO n m
+    split
+    · unfold removeLiteralStatements
+      split
+      · rfl
+      · exact runO_trav (dropT isLiteralStmt) (dropT_sound _ isLiteral_noop) (dropT_table (o := true) _ isLiteral_noop) n m
+    · rfl
+  let m2 := if o.removePass then travModule removePass m1 else m1
+  have e2 : runO n m2 = runO n m := by
+    show runO n (if o.removePass then travModule removePass m1 else m1) = runO n m
+    split
+    · rw [show runO n (travModule removePass m1) = runO n m1 from
+        runO_trav (dropT isPass) (dropT_sound isPass isPass_noop) (dropT_table (o := true) isPass isPass_noop) n m1, e1]
+    · exact e1
+  let m3 := if o.removeObjectBase then travModule removeObject m2 else m2
+  have e3 : runO n m3 = runO n m := by
+    show runO n (if o.removeObjectBase then travModule removeObject m2 else m2) = runO n m
+    split
+    · rw [runO_trav _ object_sound object_table n m2, e2]
+    · exact e2
+  let m4 := if o.removeAsserts then travModule removeAsserts m3 else m3
+  have e4 : runO n m4 = runO n m := by
+    show runO n (if o.removeAsserts then travModule removeAsserts m3 else m3) = runO n m
+    split
+    · rw [remove_asserts_preserves_under_O, e3]
+    · exact e3
+  let m5 := if o.removeDebug then travModule removeDebug m4 else m4
+  have e5 : runO n m5 = runO n m := by
+    show runO n (if o.removeDebug then travModule removeDebug m4 else m4) = runO n m
+    split
+    · rw [remove_debug_preserves_under_O, e4]
+    · exact e4
+  let m6 := if o.removeExplicitReturnNone then travModule removeReturnNone m5 else m5
+  have e6 : runO n m6 = runO n m := by
+    show runO n (if o.removeExplicitReturnNone then travModule removeReturnNone m5 else m5) = runO n m
+    split
+    · rw [runO_trav removeReturnNone returnNone_sound returnNone_table n m5, e5]
+    · exact e5
+  let m7 := if o.constantFolding then foldModule t sp orc m6 else m6
+  have e7 : runO n m7 = runO n m := by
+    show runO n (if o.constantFolding then foldModule t sp orc m6 else m6) = runO n m
+    split
+    · rw [show runO n (foldModule t sp orc m6) = runO n m6 from
+        runO_map (foldMap t sp orc) (fold_exprOK t sp orc) n m6 (by rw [e6]; exact hcore), e6]
+    · exact e6
+  let m8 := if o.removeExceptionBrackets then travModule (removeBrackets el) m7 else m7
+  have e8 : runO n m8 = runO n m := by
+    show runO n (if o.removeExceptionBrackets then travModule (removeBrackets el) m7 else m7) = runO n m
+    split
+    · rw [runO_trav _ (brackets_sound el) (brackets_table el) n m7, e7]
+    · exact e7
+  have e9 : runO n (if o.convertPosargs then removePosargs m8 else m8) = runO n m := by
+    split
+    · rw [show runO n (removePosargs m8) = runO n m8 from runO_map posMap pos_exprOK n m8 (by rw [e8]; exact hcore), e8]
+    · exact e8
+  have hT : transformM t sp orc el o m = (if o.convertPosargs then removePosargs m8 else m8) := by
+    simp only [transformM, h1, h2, Bool.false_eq_true, if_false, m8, m7, m6, m5, m4, m3, m2, m1]
+  rw [hT]
+  exact e9
+
 end PMV.C01
